@@ -27,6 +27,63 @@ chk("C17", "model_checking",
     "complete enumeration of Go function signatures x argument counts x values on the real code against a conversion table",
     "DESIGN.md §5 C17")
 
+chk("C02", "model_checking",
+    "Four parts: (a) 120 statement templates x hostile values (nan, +-inf, huge, negative, fractional, empty, invalid UTF-8, NUL, 70000-byte strings, regex/format metacharacters) in every argument position x Chars x {default,CSV,TSV,CSV+header} x sandbox flags, every byte string of length <=2 over 10 bytes as FS/RS/SUBSEP/OFS/ORS/CONVFMT/OFMT, INPUTMODE/OUTPUTMODE strings, must-error programs; (b) every sequence of <=3 record operations in CSV modes; (c) every accepted source among all sequences of <=3 (thorough 4) token atoms and the C01 program space under non-default configurations with a VM step budget; (d) a bytecode verifier that exhaustively explores the (ip, stack depth) control-flow automaton of every compiled block of every program seen (no pop below base, equal depth at joins, jump targets on instruction boundaries, operand indexes within tables, call arity) - that part holds for all inputs of each verified program.",
+    "Every program x every input is undecidable: decided is the listed product plus, per program, absence of stack/jump/index faults for all inputs. Stack-effect table derived by hand from interp/vm.go, keyed by opcode name.",
+    "complete enumeration of hostile-value/config products on the real code + explicit-state exploration of the bytecode control-flow automaton",
+    "DESIGN.md §5 C02, Appendix A")
+chk("C03", "model_checking",
+    "Every sequence of <=4 (thorough 5) atoms over a 41-atom alphabet hitting every lexer branch, every prefix / single-byte deletion / single-byte substitution (9 bytes) of every source in the repository's corpus, and nesting towers up to 32 KiB: ParseProgram must return (no panic), an error position must lie inside the source, every token position reported by the real lexer (driven through every Scan/ScanRegex continuation) must equal the position computed by an independent reference lexer and offset map, and the real CLI binary must show the offending line without a Go panic for every distinct error class.",
+    "Independent 120-line reference lexer; CLI observed once per (message kind x position class), at most 2000 process runs.",
+    "complete enumeration of source texts over a token-atom alphabet and of single-edit mutations of the corpus, against a reference lexer",
+    "DESIGN.md §5 C03")
+chk("C04", "model_checking",
+    "All expression trees with <=3 operator nodes over all 34 operators of the POSIX table (thorough: plus all 4-operator trees over one representative per level) with position-dependent leaves, in 5-11 contexts (statement, print argument, pattern, condition, redirected print, subscript, call argument, ...), each printed fully parenthesised, table-minimal, and in four permissive spellings; both texts are parsed by goawk and the resulting tree (vexp.CanonTree) must equal the generator's own tree; negative expectations for non-associative chains, > in print and | getline.",
+    "The generator owns the expected tree; purely lexical ambiguities (a right operand of concatenation starting with + - ++ --) are always parenthesised.",
+    "complete enumeration of expression trees up to a size bound; parse result compared with the generator's tree",
+    "DESIGN.md §5 C04")
+chk("C05", "model_checking",
+    "Every string of length <=4 (thorough 5) over {0 1 9 . + - e E x space} plus ~200 exotic strings, in 22 provenances (field, $0, getline forms, split, ARGV, ENVIRON, -v, operand assignment, constants, computed), probed with 7 truth forms, arithmetic, string conversion and the six comparison operators (plain opcodes, fused jumps, ternary) against ~100 partners each; all pairs of strings of length <=3; ~15k numbers under 9 CONVFMT/OFMT settings; compared with an independent reference value model (own looks-numeric recogniser, prefix conversion, number-to-string and comparison rules).",
+    "Forms POSIX leaves open (hex, inf/nan spellings, overflow, non-ASCII blanks) are checked for self-consistency only (one number per string).",
+    "complete enumeration of strings/numbers/pairs over small alphabets against a reference value model",
+    "DESIGN.md §5 C05, Appendix B")
+chk("C10", "model_checking",
+    "substr/length/index on every string of length <=3 (thorough 4) over {a,b,e-acute,0xff} x 44 positions x 45 lengths (fractions, negatives, 2^31, 2^53, 2^63, 2^64, 1e30, 1e308, +-inf, nan) in byte and character mode; split with 14 single-character separators; match/sub/gsub for every regex of <=3 atoms over 13 atoms x every subject x 116 replacement strings; int() on 78 arguments up to MaxFloat64 - each compared with the property's defining equations evaluated by the harness and an own leftmost-longest matcher (Go regexp only cross-checked).",
+    "NaN arguments are no-crash only; index(s, \"\") and backslashes not followed by & in replacements accept both common readings.",
+    "complete enumeration of subjects x patterns x replacements x numeric arguments against the defining equations",
+    "DESIGN.md §5 C10")
+chk("C13", "model_checking",
+    "X: every sequence of <=3 (thorough 4) operations over 17 kinds (print/printf to stdout, >, >>, two commands, close, fflush, system, cmd|getline, getline<file, exit statuses, exit, run-time error) on the real interpreter over virtual child processes against a destination model (file bytes, close() results, per-source stdout projections, order constraints), with unbuffered and buffered Config.Output; S: for sequences with a child sharing stdout, every schedule of program, child and copy threads within a deviation bound under a cooperative scheduler in which each Write to Config.Output is a two-event critical section (overlap = violation; deadlock = violation); D: a write failure injected at every byte offset of standard output for 11 output paths x {unbuffered, bufio}, plus the CLI with stdout=/dev/full.",
+    "os/exec and child processes are replaced by the vexec model (trusted to reflect os/exec's documented behaviour: copy goroutine for non-*os.File Stdout, Wait waits for copying); kernel pipe buffering is not modelled.",
+    "explicit enumeration of operation sequences against a model + stateless schedule exploration (deviation-bounded) + exhaustive fault-offset enumeration",
+    "DESIGN.md §5 C13, Appendix D")
+chk("C14", "model_checking",
+    "Explicit-state breadth-first search over histories of Execute/ExecuteContext/ResetVars/ResetRand on one Interpreter (30 operations in quick, 39 in thorough: plain/CSV/TSV/header runs, Vars and Args, run-time errors in function/loop/for-in/rule, exit in BEGIN/rule/END, cancellation at several VM steps, streams left open, sandbox flags, rejected configurations) to depth 2 (thorough 3), states de-duplicated by a canonical dump of the interpreter's persistent fields; in every state two oracles over 9 probe configurations: ResetVars+ResetRand+Execute(probe) equals ExecProgram on a fresh interpreter, and without ResetVars everything except variables/arrays equals fresh.",
+    "State dump (VerifDump) is over-fine by design; successor = replay of the history on a fresh Interpreter plus one operation.",
+    "explicit-state BFS over operation histories of the real object with canonical state hashing, differential against a fresh instance",
+    "DESIGN.md §5 C14")
+chk("C15", "model_checking",
+    "For 14 programs (tight loops, nested calls, recursion, for-in, main-loop rules, END loop, pending output, getline loop, error/exit after loops) the context is cancelled before VM step k for every k<=300, every 7th k<=3000 and every 61st to the end (thorough: every k<=3000, every 7th beyond), with unbuffered and buffered output, plus pre-cancelled and expired contexts: at most 1500 further steps, the context's error (or normal completion within those steps), printed output delivered and a prefix of the uncancelled output; for 6 programs waiting on child processes every placement of the cancel among the scheduling points of the virtual process world within a deviation bound (no deadlock, stop within the step limit); never-cancelled ExecuteContext equals Execute on ~1500 programs.",
+    "Alarm threshold 1500 steps for 'about a thousand' (the code polls every 1000); child processes are the vexec model.",
+    "exhaustive enumeration of cancellation points (VM steps, scheduling points) on the real interpreter",
+    "DESIGN.md §5 C15")
+chk("C19", "model_checking",
+    "(1) Every map-range site executed by resolver/compiler during ParseProgram is a choice point over a permutation menu; for programs with 2-3 independent type errors, call-graph shapes, native+AWK function mixes and the repository's own sources, all parses with <=1 (thorough 2) non-sorted site executions must give the same verdict, message, position, compiled code, constants, function table, printed source and disassembly as the sorted-order parse; (2) the Program's fingerprint is unchanged by two rounds of executions (including failing ones) of ~1500 programs and the second round repeats the first; (3) 2 and 3 interpreters sharing one Program run as cooperative threads yielding at every VM instruction: all schedules within a deviation bound give each interpreter its single-run result.",
+    "Map order is owned via the overlay's rewrite of every map range; data races proper (memory model) are outside an exhaustive cooperative exploration.",
+    "deviation-bounded exploration of map iteration orders and of instruction-level interleavings on the real code",
+    "DESIGN.md §5 C19")
+chk("C20", "model_checking",
+    "C04's tree space in five spellings and all contexts, every chain of <=3 (thorough 4) prefix operators x operands x postfix x contexts, every byte value and escape class in strings (all strings of <=3 (4) symbols over a 20-symbol alphabet), all regexes of <=3 (4) pieces over 13 pieces, 51 numeric literals, ~230 simple statements, compound forms with all body combinations, containers and item sequences: parse, print with Program.String, re-parse must succeed, the two trees (vexp.CanonTree, numbers at 6 significant digits) must be equal, and printing again must give the same text.",
+    "Rejected sources are skipped; grouping nodes and the empty-else distinction are ignored.",
+    "complete enumeration of programs over a grammar fragment; print/re-parse round trip compared structurally",
+    "DESIGN.md §5 C20")
+
+chk("C11", "model_checking",
+    "Programs generated from all combinations of BEGIN (7 forms incl. getline and ARGV/ARGC edits), one or two rules with every pattern form (plain, expression, regex, ranges incl. same-record and never-closing, field-value ranges) and every action of <=2 operations from {getline, getline v, getline < f, getline v < f, next, nextfile, exit k} (plain, inside a function, inside a loop), END (trace, exit, getline) x every operand list of <=3 (thorough 4) over {fileA, fileB, empty file, -, \"\", v=1, FS=,, missing file}; every trace line prints NR, FNR, FILENAME, NF, $0 and the getline variable; each run is compared with the reference tree evaluator given the same files, and ~25 direct invariants from the statement are evaluated on the trace by the check itself.",
+    "Reference evaluator as in C01; FILENAME in BEGIN/for stdin is not prescribed (normalised); plain getline reaching a missing operand is outside the model.",
+    "complete enumeration of programs x operand lists against a reference evaluator plus trace invariants",
+    "DESIGN.md §5 C11")
+
 NOT_YET = "check not built yet in this round (work in progress; see DESIGN.md §5 for the planned exploration)"
 ALL = ["C%02d" % i for i in range(1, 21)]
 
